@@ -289,7 +289,7 @@ def C15(t0):
     jobs = [('shape traces of every r1cs gadget function (proving paths + setup mode)', shape.check_shapes, ()), ('public-input clause', shape.check_public_input, ()),
             ('pinned Groth16 keys (native ground oracle)', shape.check_groth16_native, ())]
     obs = par.run_groups(jobs)
-    return finish('C15', obs, t0, level='bounded',
+    return finish('C15', obs, t0, level='proof',
         functions=['every function of src/ark_curve/r1cs/{element,inner,fqvar_ext,ops,lazy}.rs (enumerated from the MIR; 127 scenarios: operand states element/encoding, allocation modes, Boolean operands)',
                    'AllocVar<Element, Fq>::new_variable in Input mode; ToConstraintField<Fq> for Element', 'tests/groth16_gadgets.rs against tests/test_vectors (native run, outside the solver claim)'],
         bounds=['all operand values symbolic and opaque; every value-dependent branch of the gadget code forks and both arms are compared; setup mode = values absent (`value()` fails on variables, arkworks value closures not evaluated; the caller hands over a dummy value because the crate evaluates the caller closure eagerly)',
